@@ -75,6 +75,31 @@ def sharing_shapes():
         out.append(("manifest-twice-%d" % n, ("local", [("bind", "o", ("obj", [F("f", T("F", N(1)))]))], ("arr", [V("o")] * n))))
         out.append(("inherit-copies-%d" % n, ("local", [("bind", "b", ("obj", [F("f", T("F", N(1)))]))],
                                               ("arr", [("bin", "+", V("b"), ("obj", [F("k", N(i))])) for i in range(n)]))))
+    # lazily mapped arrays consumed several times, through different consumers
+    mk = lambda: prog.STD("makeArray", N(2), ("fn", [("i", None)], T("MK", V("i"))))
+    mp = lambda: prog.STD("map", ("fn", [("x", None)], T("MP", V("x"))), ("arr", [N(1), N(2)]))
+    mi = lambda: prog.STD("mapWithIndex", ("fn", [("i", None), ("x", None)], T("MI", V("x"))), ("arr", [N(1)]))
+    keep = ("fn", [("x", None)], ("lit", "true"))
+    for nm, mkarr in (("makeArray", mk), ("map", mp), ("mapWithIndex", mi)):
+        consumers = {
+            "index-twice": lambda m: add(("index", m, N(0)), ("index", m, N(0))),
+            "comp-twice": lambda m: ("arr", [("arrcomp", V("x"), [("for", "x", m)]), ("arrcomp", V("x"), [("for", "x", m)])]),
+            "comp-then-index": lambda m: ("arr", [("arrcomp", V("x"), [("for", "x", m)]), ("index", m, N(0))]),
+            "concat-self": lambda m: ("bin", "+", m, m),
+            "concat-then-manifest": lambda m: ("arr", [("bin", "+", m, ("arr", [N(9)])), m]),
+            "filter-then-manifest": lambda m: ("arr", [prog.STD("filter", keep, m), m]),
+            "slice-then-manifest": lambda m: ("arr", [("slice", m, N(0), None, None), m]),
+            "manifest-thrice": lambda m: ("arr", [m, m, m]),
+            "equality": lambda m: ("arr", [("bin", "==", m, ("arr", [N(0), N(1)])), m]),
+        }
+        for cn, cf in consumers.items():
+            out.append(("mapped-%s-%s-1" % (nm, cn), ("local", [("bind", "m", mkarr())], cf(V("m")))))
+    # object-level locals shared by fields and asserts of the same object
+    out.append(("object-local-assert-and-field-1", IDX(("obj", [("olocal", ("bind", "l", T("OL", N(1)))), ("oassert", ("bin", ">", V("l"), N(0)), None), F("f", V("l")), F("g", V("l"))]), "f")))
+    out.append(("object-local-two-asserts-1", ("obj", [("olocal", ("bind", "l", T("OL", N(1)))), ("oassert", ("bin", ">", V("l"), N(0)), None), ("oassert", ("bin", "<", V("l"), N(5)), None), F("f", V("l"))])))
+    out.append(("object-local-fields-manifest-1", ("obj", [("olocal", ("bind", "l", T("OL", N(1)))), F("f", V("l")), F("g", V("l")), F("h", add(V("l"), V("l")))])))
+    out.append(("object-local-method-1", ("local", [("bind", "o", ("obj", [("olocal", ("bind", "l", T("OL", N(1)))), ("field", ("fixed", "m"), False, ":", [("x", None)], add(V("l"), V("x"))), F("f", V("l"))]))],
+                                          add(("apply", IDX(V("o"), "m"), [N(1)], [], False), ("apply", IDX(V("o"), "m"), [N(2)], [], False), IDX(V("o"), "f")))))
     # unneeded positions, every bomb kind
     for i, b in enumerate(BOMBS):
         out.append(("unused-local-%d" % i, ("local", [("bind", "u", b)], N(1))))
